@@ -493,6 +493,45 @@ def o_dt(inp):
     return _guard(body, entry)
 
 
+def _rate_kw(spec):
+    how, hz, hz2 = spec
+    return {'frequency': {'frequency': hz}, 'Dt': {'Dt': 1.0 / hz}, 'both': {'frequency': hz2, 'Dt': 1.0 / hz}}[how]
+
+
+def o_rate(inp):
+    """the sampling step configured in the CONSTRUCTOR, in each documented spelling (frequency=hz, Dt=1/hz, both -- Dt wins):
+    Filter(data, rate) == the data-less Filter(rate) streamed WITHOUT dt, for the same spelling and for an equivalent other one"""
+    name, arch = inp['filter'], inp['arch']
+    entry = f'{name}.{arch}'
+
+    def body():
+        kw = _kw(inp)
+        kw.pop('frequency', None); kw.pop('Dt', None)
+        hist = _hist_of(inp)
+        hz, hz2 = float(inp['hz']), float(inp.get('hz2', 100.0))
+        seed = inp.get('npseed', 0)
+        spellings = [inp['how']] + [h for h in ('frequency', 'Dt', 'both') if h != inp['how']]
+        ref = None
+        for how in spellings:
+            rk = _rate_kw((how, hz, hz2))
+            B = _batch(name, arch, hist, {**kw, **rk}, seed)
+            S = _stream(name, arch, hist, {**kw, **rk}, B[0], seed)            # no dt argument: the configured step must be used
+            if name == 'AngularRate':
+                import ahrs
+                S = np.asarray(ahrs.QuaternionArray(S), dtype=float)
+            if not _same(B, S):
+                t = int(np.argmax([not _same(B[i], S[i]) for i in range(len(B))]))
+                return {'tag': f'{entry}/configured-rate-batch-vs-stream', 'observed': {'spelling': how, 'hz': hz, 'first_row': t,
+                        'max_abs_diff': float(np.nanmax(np.abs(B - S)))}, 'expected': 'bit-identical rows'}
+            if ref is None:
+                ref = B
+            elif not _same(B, ref):
+                return {'tag': f'{entry}/rate-spellings-disagree', 'observed': {'spellings': [spellings[0], how], 'hz': hz,
+                        'max_abs_diff': float(np.nanmax(np.abs(B - ref)))}, 'expected': 'bit-identical rows'}
+        return None
+    return _guard(body, entry)
+
+
 # caller-owned array values for the array-valued constructor keywords (which keywords a class has is read off its source by the
 # extractor: signature of __init__ plus the names it looks up in **kwargs)
 KWVALUES = {
@@ -575,7 +614,7 @@ def o_kwshare(inp):
     return _guard(body, entry)
 
 
-ORACLES = {'dt': o_dt, 'kwshare': o_kwshare, 'stream': o_stream, 'repeat': o_repeat, 'interleave': o_interleave, 'single_frame': o_single_frame, 'order': o_order}
+ORACLES = {'dt': o_dt, 'rate': o_rate, 'kwshare': o_kwshare, 'stream': o_stream, 'repeat': o_repeat, 'interleave': o_interleave, 'single_frame': o_single_frame, 'order': o_order}
 
 
 # ------------------------------------------------------------------------------------------ correspondence
@@ -852,6 +891,18 @@ def search(ctx, scale):
                        'hseed': int(rng.integers(1 << 30)), 'N': NS[int(rng.integers(1, 6))], 'kind': ('generic', 'zero' + ZERO_OK[name], 'fast')[(hi + rep) % 3],
                        'npseed': int(rng.integers(1 << 16))}
                 ctx.check('dt', inp, o_dt(inp), nontrivial_key=('dt', name, arch, hz, rep))
+    # the rate configured in the constructor (frequency= / Dt= / both), streamed WITHOUT dt
+    for (name, arch) in cfgs:
+        for hi, hz in enumerate((25.0, 50.0, 250.0)):
+            for rep in range(scale):
+                o = OPTIONS[name]
+                kw = dict(o[(hi + rep + 1) % len(o)])
+                if name == 'Madgwick' and not ({'gain', 'beta'} & set(kw)):
+                    kw['gain'] = 0.041
+                inp = {'filter': name, 'arch': arch, 'kw': kw, 'hz': hz, 'hz2': (100.0, 40.0, 500.0)[(hi + rep) % 3],
+                       'how': ('Dt', 'both', 'frequency')[(hi + rep + len(name)) % 3], 'hseed': int(rng.integers(1 << 30)),
+                       'N': NS[int(rng.integers(1, 6))], 'kind': ('generic', 'fast', 'zero' + ZERO_OK[name])[(hi + rep) % 3], 'npseed': int(rng.integers(1 << 16))}
+                ctx.check('rate', inp, o_rate(inp), nontrivial_key=('rate', name, arch, hz, rep))
     # every array-valued constructor keyword (found in the class source) as a caller-owned array shared by runs and instances
     for (name, arch) in cfgs:
         names, unknown = array_kwargs(name)
